@@ -1,13 +1,55 @@
 (* C14 — simulated valuations are sound lower bounds of the true valuations. Statements only. *)
-From Coq Require Import ZArith QArith List Bool Lia.
+From Coq Require Import Arith ZArith QArith List Bool Lia.
 Import ListNotations.
-From SCK Require Import ElicitM ElicitRun ElicitEval ElicitBS.
+From SCK Require Import Argsort ElicitM ElicitRun ElicitEval ElicitBS ElicitRules ElicitSpec ElicitSpecProof ElicitFinal.
 Local Open Scope Z_scope.
 
-(* The binary search used by k-ARV, lambda-TSF and the two-sided rule (positions a..b of agent i's ranking rk,
-   threshold tau, values read through a truthful memoising elicitor): the returned position p satisfies
-   "p = 0 or value(p) >= tau" and "p+1 = m or value(p+1) < tau" — with values weakly decreasing along the
-   ranking this is exactly: positions <= p are >= tau, positions beyond are < tau. *)
+(* Setting for the three threshold rules (k-ARV: byq = false, init = 0; lambda-TSF: byq = false, init = 1e-5;
+   two-sided lambda-TSF, one side: byq = true, init = 0). P is the strict complete profile of 1-based ranks,
+   V the valuation behind a truthful memoising elicitor (index shift fixer), tau i l the threshold
+   v_i / m^(l/(k+1)) the code computed (an input: the floats are carried as exact rationals).
+   Hypotheses: every row of P is a strict complete ranking (strict_rowb, decidable, evaluated per case), V is
+   consistent with P (a better rank never has a smaller value), thresholds are non-increasing in the level.
+   sim = the simulated profile returned by RUNNING the rule's query program against the elicitor. *)
+
+(* every agent's favourite alternative gets exactly its true value *)
+Theorem C14_favourite_exact : forall fixer V P k tau byq init,
+  let n := length P in let m := length (nth 0 P []) in
+  (1 <= m)%nat ->
+  (forall row, In row P -> length row = m /\ strict_rowb row = true) ->
+  (forall i j j', (i < n)%nat -> (j < m)%nat -> (j' < m)%nat -> nth j (nth i P []) 0 <= nth j' (nth i P []) 0 -> (Vat fixer V i j' <= Vat fixer V i j)%Q) ->
+  (forall i l, (i < n)%nat -> (1 <= l)%nat -> (l < k)%nat -> (tauof tau i (S l) <= tauof tau i l)%Q) ->
+  forall i, (i < n)%nat -> forall j, (j < m)%nat -> nth j (nth i P []) 0 = 1 ->
+  nth j (srow fixer V P k tau byq init i) 0%Q = Vat fixer V i j.
+Proof. exact ElicitFinal.C14_favourite_exact. Qed.
+Print Assumptions C14_favourite_exact.
+
+(* every other alternative j of agent i, at position q = rank - 1 >= 1 of its ranking (pst l = the position found
+   by the l-th binary search): EITHER j lies in the l-th acceptable set (q <= pst l, q > pst l' for l' < l): then
+   its true value is >= tau_l, its simulated value never exceeds its true value, equals tau_l exactly (k-ARV,
+   lambda-TSF) resp. the true value at the last position of the set, which is the smallest true value in the
+   set (two-sided rule); OR j lies outside all sets: it keeps the initial value (0 resp. the 1e-5 floor) and
+   its true value is below the last threshold tau_k. *)
+Theorem C14_threshold_sets : forall fixer V P k tau byq init,
+  let n := length P in let m := length (nth 0 P []) in
+  (1 <= m)%nat ->
+  (forall row, In row P -> length row = m /\ strict_rowb row = true) ->
+  (forall i j j', (i < n)%nat -> (j < m)%nat -> (j' < m)%nat -> nth j (nth i P []) 0 <= nth j' (nth i P []) 0 -> (Vat fixer V i j' <= Vat fixer V i j)%Q) ->
+  (forall i l, (i < n)%nat -> (1 <= l)%nat -> (l < k)%nat -> (tauof tau i (S l) <= tauof tau i l)%Q) ->
+  forall i, (i < n)%nat -> forall j, (j < m)%nat -> (1 <= k)%nat ->
+  let rk := rank_list (nth i P []) in
+  let q := nth j (nth i P []) 0 - 1 in 1 <= q ->
+  let pst := ps fixer V rk i (Z.of_nat m) (tauof tau i) in
+  (exists l, (1 <= l)%nat /\ (l <= k)%nat /\ q <= pst l /\ (forall l', (1 <= l')%nat -> (l' < l)%nat -> pst l' < q) /\
+             (tauof tau i l <= Vat fixer V i j)%Q /\ (nth j (srow fixer V P k tau byq init i) 0%Q <= Vat fixer V i j)%Q /\
+             (byq = false -> nth j (srow fixer V P k tau byq init i) 0%Q = tauof tau i l) /\
+             (byq = true -> nth j (srow fixer V P k tau byq init i) 0%Q = valp fixer V rk i (pst l) /\
+                            forall q', 1 <= q' -> q' <= pst l -> (valp fixer V rk i (pst l) <= valp fixer V rk i q')%Q)) \/
+  (pst k < q /\ nth j (srow fixer V P k tau byq init i) 0%Q = init /\ (Vat fixer V i j < tauof tau i k)%Q).
+Proof. exact ElicitFinal.C14_sets. Qed.
+Print Assumptions C14_threshold_sets.
+
+(* ingredients *)
 Theorem C14_binary_search_postcondition : forall fixer V rk i m tau fuel a b st p st',
   memo_inv V st ->
   run true fixer V (bsearchP fuel rk i a b tau) st = (p, st') ->
@@ -17,10 +59,16 @@ Theorem C14_binary_search_postcondition : forall fixer V rk i m tau fuel a b st 
 Proof. exact bsearch_spec. Qed.
 Print Assumptions C14_binary_search_postcondition.
 
-(* With a truthful memoising elicitor the value computed by ANY query program (hence by every rule) is
-   its pure evaluation, a function of the valuation alone — the level-major order in which the code asks
-   its questions cannot influence the simulated profile. *)
 Theorem C14_run_is_pure_evaluation : forall (A : Type) fixer V (p : prog A) st, memo_inv V st ->
   fst (run true fixer V p st) = eval fixer V p /\ memo_inv V (snd (run true fixer V p st)).
 Proof. intros A. exact (@run_eval A). Qed.
 Print Assumptions C14_run_is_pure_evaluation.
+
+(* the level-major program of the code computes, agent by agent, the per-agent function the theorems are about *)
+Theorem C14_level_major_equals_agent_major : forall fixer V ranked tau byq n m k init,
+  eval fixer V (thrP ranked tau byq n m k init) =
+  map (fun i => agent_final fixer V (nth i ranked []) i m (tauof tau i) byq init k) (seq 0 n).
+Proof. exact thr_rule_pure. Qed.
+Print Assumptions C14_level_major_equals_agent_major.
+
+(* NOT yet proved for all inputs (checked per case by the direct oracle): Match-TwoQueries' row characterisation. *)
